@@ -53,8 +53,8 @@ def _lib_file_traced(fn):
                 v = rel.split(os.sep)[0] in LIB_ALLOW_TOP
             else:
                 top = rel.split(os.sep)[1] if os.sep in rel else ""
-                v = top in ("webencodings", "six.py")
-        elif (os.sep + "webencodings" + os.sep) in fn or fn.endswith(os.sep + "six.py"):
+                v = top == "webencodings"      # (not six: its lazy attributes resolve once per process - a memo)
+        elif (os.sep + "webencodings" + os.sep) in fn:
             v = True
         _lib_file[fn] = v
     return v
